@@ -119,7 +119,7 @@ def run(chk):
                 problems.append(('C16:reader:other-argument', r))
         elif not r.get('same_as_path'):
             problems.append(('C16:reader:' + ('stream' if 'path' not in r['kind'] else r['kind'].replace('-multimember', '')) + (':non-utf8-text' if 'utf16' in r['kind'] else '')
-                             + (':' + r['eol'] if r.get('eol', 'lf') != 'lf' else '') + (':bom' if r.get('non_ascii') == 'bom' else '') + (':second-configuration' if r.get('config') else ''), r))
+                             + (':' + r['eol'] if r.get('eol', 'lf') != 'lf' else '') + (':bom' if r.get('non_ascii') == 'bom' else ':big' if r.get('non_ascii') == 'big' else '') + (':second-configuration' if r.get('config') else ''), r))
     for w in obs['writers']:
         chk.count('writer:' + w['writer'])
         if w['kind'].startswith('other:'):
@@ -137,7 +137,7 @@ def run(chk):
     chk.extra['reader_runs'] = len(obs['readers'])
     chk.extra['writer_runs'] = len(obs['writers'])
     chk.rule = ('EXHAUSTIVE product: readers {load_minimal_ontology, load_ontology, SimpleHpoaDiseaseLoader.load, SimilarityContainer.from_csv} x sources {path, .gz path (single- and multi-member gzip), open text '
-                'file (UTF-8 and UTF-16), open binary file, StringIO, BytesIO, gzip text stream, gzip binary stream} x {ASCII, non-ASCII content} x {LF, CR LF, CR line endings} + content starting with a UTF-8 byte order mark: result (or raised exception class) equal to the plain-path result; writers '
+                'file (UTF-8 and UTF-16), open binary file, StringIO, BytesIO, gzip text stream, gzip binary stream} x {ASCII, non-ASCII content} x {LF, CR LF, CR line endings} + content starting with a UTF-8 byte order mark + a 250-500 KiB document full of multi-byte characters: result (or raised exception class) equal to the plain-path result; writers '
                 '{SimilarityContainer.to_csv, AnnotationIcContainer.to_csv} x targets {path, .gz path, open text file stream, open binary file stream}: content (timestamp removed) '
                 'equal; both products again in a second process configuration (LC_ALL=C without UTF-8 mode: the locale prefers ASCII); 7 non-stream argument types must raise ValueError; the decision taken by '
                 'the helper for 13 file names and 13 stream objects, the text layer of every handle it creates (its encoding follows the `encoding` parameter - default and latin-1 - and the text delivered / '
